@@ -26,7 +26,7 @@ pub fn def() -> PropDef {
 fn parts() -> Vec<Box<dyn PartDyn>> {
     vec![
         Box::new(Calibration),
-        Box::new(GenPart { name: "masks", quick: 2_500, thorough: 60_000, shrink_iters: 300, strat: strategy, check }),
+        Box::new(GenPart { name: "masks", quick: 10_000, thorough: 60_000, shrink_iters: 300, strat: strategy, check }),
     ]
 }
 
